@@ -67,6 +67,9 @@ func Run(run *vr.Run, set string, rounds int) {
 		if json.Unmarshal(sc.Bytes(), &rep) != nil {
 			continue
 		}
+		if rep.Wrong == nil {
+			rep.Wrong = []string{}
+		}
 		scen = append(scen, map[string]any{"scenario": rep.Scenario, "rounds": rep.Rounds, "not_judged_deadline": rep.Timeouts, "wrong": rep.Wrong})
 		for _, w := range rep.Wrong {
 			run.Violation("free-run|"+vr.MsgClass(w), fmt.Sprintf("free-running pass, scenario %q: %s", rep.Scenario, w), map[string]any{"free_run": set, "scenario": rep.Scenario})
@@ -93,7 +96,7 @@ func Run(run *vr.Run, set string, rounds int) {
 		run.Violation("free-run|process-died|"+vr.MsgClass(first)+"|"+firstRepoFrame(msg), fmt.Sprintf("free-running pass: the process died: %s (%v)", first, err), map[string]any{"free_run": set, "stderr_head": head(msg, 1500)})
 	}
 	races, onMap, first := parseRaces(logBase)
-	var sites []string
+	sites := []string{}
 	for k := range races {
 		sites = append(sites, k)
 	}
